@@ -352,6 +352,11 @@ func (m *QuestionModel) verifyChoiceMatch(answer Answer) error {
 	correctByIndex := answer.correctAnswerIndices()
 	generated := m.Question.RenderOutput()
 	outputs := generateAnserOutputs(m.AnswerChoices)
+	for i := len(outputs); i <= int('z'-'a'); i++ {
+		if correctByIndex[i] {
+			return fmt.Errorf("%w (%s): answer %q has no corresponding choice, found only %d choices", ErrWrongAnswer, m.Filename(), indexToLetter(i), len(outputs))
+		}
+	}
 	for i, output := range outputs {
 		if correctByIndex[i] && generated != output {
 			return fmt.Errorf("%w (%s): answer %q does not match question: %q != %q", ErrWrongAnswer, m.Filename(), indexToLetter(i), strings.TrimSuffix(output, "\n"), strings.TrimSuffix(generated, "\n"))
